@@ -118,9 +118,13 @@ def _resolve_log(L):
 def _ensures(C, res):
     """stated over the ghost log of the calls (what was de-duplicated, what was joined, what was written where), not over the
     function's final locals: a path that skips a step leaves its ghost unset and fails the clause"""
+    k, k2 = z3.Int('k'), z3.Int('k2')
+    if not C.proving:
+        # at a call site (Program.run) the ghost log of this run does not exist: what is stated without it
+        return [('best_returns_rows_in_ascending_query_id', z3.Implies(_mode(C, 'best'), forall([k, k2], z3.Implies(
+            z3.And(0 <= k, k <= k2, k2 < res.len), res[k].queryId <= res[k2].queryId), [MP(res.raw(k).t, res.raw(k2).t)])))]
     Fv = C.F
     e = C._e
-    k, k2 = z3.Int('k'), z3.Int('k2')
     first, second = Fv.gf1, Fv.gf2
     joined, sep = Fv.gjoined, Fv.gsep
     needs_join = z3.Not(_mode(C, 'separate'))
